@@ -128,7 +128,13 @@ func discharge(obs []*Obligation, timeoutS int, all bool) []ObResult {
 			sem <- struct{}{}
 			defer func() { <-sem }()
 			var r SolveResult
-			if ob.Goal.IsTrue() && ob.Expect != "sat" {
+			if ob.Concrete != nil {
+				if *ob.Concrete == "" {
+					r = SolveResult{Status: "unsat", Solver: "exhaustive-fp"}
+				} else {
+					r = SolveResult{Status: "sat", Solver: "exhaustive-fp", Raw: *ob.Concrete}
+				}
+			} else if ob.Goal.IsTrue() && ob.Expect != "sat" {
 				r = SolveResult{Status: "unsat", Solver: "trivial"}
 			} else {
 				t := timeoutS
